@@ -372,42 +372,79 @@ func (pf *Portfolio) solve(body string, wantVars []string, important bool) (Tri,
 		}
 		atomic.AddInt64(&gCache.misses, 1)
 	}
-	order := []SolverKind{Z3New, CVC5, Z3Old}
-	caps := []int{pf.cfg.capFast, pf.cfg.capSlow, pf.cfg.capSlow}
-	if important {
-		caps[0] = pf.cfg.capFastImportant
-	}
 	var note string
-	for i, k := range order {
-		s, err := pf.get(k, caps[i])
-		if err != nil {
-			note += fmt.Sprintf("[%s: %v]", solverNames[k], err)
-			continue
+	fastCap := pf.cfg.capFast
+	if important {
+		fastCap = pf.cfg.capFastImportant
+	}
+	// stage 1: z3 5.x with the short cap
+	if s, err := pf.get(Z3New, fastCap); err != nil {
+		note += fmt.Sprintf("[z3-new: %v]", err)
+	} else if r, m, err := s.query(body, wantVars, fastCap); err != nil {
+		note += fmt.Sprintf("[z3-new: %v]", err)
+	} else if r != Unknown {
+		if len(wantVars) == 0 {
+			queryCache.Store(body, r)
 		}
-		r, m, err := s.query(body, wantVars, caps[i])
-		if err != nil {
-			note += fmt.Sprintf("[%s: %v]", solverNames[k], err)
-			continue
-		}
-		if r != Unknown {
-			if len(wantVars) == 0 {
-				queryCache.Store(body, r)
-			}
-			if important && pf.cfg.diff && i == 0 {
-				// solver diff: ask a second solver, disagreement is recorded
-				if s2, err := pf.get(CVC5, pf.cfg.capSlow); err == nil {
-					r2, _, err2 := s2.query(body, nil, pf.cfg.capSlow)
-					if err2 == nil && r2 != Unknown {
-						atomic.AddInt64(&pf.cfg.stats.diffed, 1)
-						if r2 != r {
-							atomic.AddInt64(&pf.cfg.stats.disagreements, 1)
-							return Unknown, nil, fmt.Sprintf("solver disagreement: z3-new=%v cvc5=%v", r, r2)
-						}
+		if important && pf.cfg.diff {
+			// solver diff: ask a second solver, disagreement is recorded
+			if s2, err := pf.get(CVC5, pf.cfg.capSlow); err == nil {
+				r2, _, err2 := s2.query(body, nil, pf.cfg.capSlow)
+				if err2 == nil && r2 != Unknown {
+					atomic.AddInt64(&pf.cfg.stats.diffed, 1)
+					if r2 != r {
+						atomic.AddInt64(&pf.cfg.stats.disagreements, 1)
+						return Unknown, nil, fmt.Sprintf("solver disagreement: z3-new=%v cvc5=%v", r, r2)
 					}
 				}
 			}
-			return r, m, solverNames[k] + note
 		}
+		return r, m, "z3-new" + note
+	}
+	// stage 2: cvc5 and z3 4.8 side by side with the long cap; the first definitive answer wins
+	type ans struct {
+		r    Tri
+		m    map[string]string
+		kind SolverKind
+		err  error
+	}
+	ch := make(chan ans, 2)
+	var started []SolverKind
+	for _, k := range []SolverKind{CVC5, Z3Old} {
+		s, err := pf.get(k, pf.cfg.capSlow)
+		if err != nil {
+			note += fmt.Sprintf("[%s: %v]", solverNames[k], err)
+			continue
+		}
+		started = append(started, k)
+		go func(k SolverKind, s *Solver) {
+			r, m, err := s.query(body, wantVars, pf.cfg.capSlow)
+			ch <- ans{r, m, k, err}
+		}(k, s)
+	}
+	var winner *ans
+	for i := 0; i < len(started); i++ {
+		a := <-ch
+		if a.err != nil {
+			note += fmt.Sprintf("[%s: %v]", solverNames[a.kind], a.err)
+			continue
+		}
+		if a.r != Unknown && winner == nil {
+			w := a
+			winner = &w
+			// stop the other solver: it is restarted on demand
+			for _, k := range started {
+				if k != a.kind && pf.solvers[k] != nil {
+					pf.solvers[k].kill()
+				}
+			}
+		}
+	}
+	if winner != nil {
+		if len(wantVars) == 0 {
+			queryCache.Store(body, winner.r)
+		}
+		return winner.r, winner.m, solverNames[winner.kind] + note
 	}
 	return Unknown, nil, "all solvers unknown " + note
 }
